@@ -4,6 +4,7 @@ use crate::user::User;
 use crate::engine::Engine;
 use std::collections::HashMap;
 use std::ops::Deref;
+use std::rc::Rc;
 
 /// Substitution Map
 ///
@@ -86,13 +87,22 @@ where
         let v = self.walk(v);
         match v.as_ref() {
             LTermInner::Cons(head, tail) => LTerm::cons(self.walk_star(head), self.walk_star(tail)),
-            LTermInner::Compound(compound) => compound.walk_star(self),
+            LTermInner::Compound(compound) => match compound.as_term() {
+                // A compound object that is itself a term keeps its wrapper
+                Some(term) => {
+                    LTerm::from(Rc::new(self.walk_star(term)) as Rc<dyn CompoundObject<U, E>>)
+                }
+                None => compound.walk_star(self),
+            },
             _ => v.clone(),
         }
     }
 
     /// Check that the variable `x` is not contained in the compound object `compound`.
     fn occurs_check_compound(&self, x: &LTerm<U, E>, compound: &dyn CompoundObject<U, E>) -> bool {
+        if let Some(term) = compound.as_term() {
+            return self.occurs_check(x, term);
+        }
         compound.children().any(|child| match child.as_term() {
             Some(v) => self.occurs_check(x, v),
             None => self.occurs_check_compound(x, child),
@@ -118,6 +128,9 @@ where
     }
 
     fn reify_compound(&self, compound: &dyn CompoundObject<U, E>) -> SMap<U, E> {
+        if let Some(term) = compound.as_term() {
+            return self.reify(term);
+        }
         let mut smap = self.clone();
         for child in compound.children() {
             match child.as_term() {
@@ -154,6 +167,9 @@ where
     }
 
     fn is_anyvar_compound(&self, compound: &dyn CompoundObject<U, E>) -> bool {
+        if let Some(term) = compound.as_term() {
+            return self.is_anyvar(term);
+        }
         compound.children().any(|child| match child.as_term() {
             Some(v) => self.is_anyvar(v),
             None => self.is_anyvar_compound(child),
